@@ -160,6 +160,30 @@ func hostileCmd(args []string) error {
 			}
 		}
 	}
+	// TUP attribute values (byte vectors) that announce a negative or far too large length, as 1st and as 2nd entry
+	for _, vlen := range []int64{-1, -2, -128, -(1 << 31), 1<<31 - 1, 1 << 24, 70000, 5} {
+		for pre := 0; pre <= 1; pre++ {
+			b := append(mkHead(tMAP, 0), mkCount(int64(pre+1))...)
+			for i := 0; i <= pre; i++ {
+				b = append(b, mkHead(6, 0)...)
+				b = append(b, 1, byte('a'+i))
+				b = append(b, mkHead(tSL, 1)...)
+				b = append(b, mkHead(tBYTE, 0)...)
+				if i == pre {
+					b = append(b, mkCount(vlen)...)
+					b = append(b, 1, 2, 3)
+				} else {
+					b = append(append(b, mkCount(2)...), 0x0c, 0x0c)
+				}
+			}
+			rs, died, _ := s.w.call(wReq{Entry: "tup", B: b64(b)}, 20*time.Second)
+			if died != "" {
+				rs.Panic = died
+			}
+			bw.Write(bigRec{K: "entry", Cls: "value-length", S: "tup", Desc: fmt.Sprint(b), BLen: len(b), Ok: rs.Ok, Panic: rs.Panic, Ms: rs.Ms})
+			nbig++
+		}
+	}
 	// (iv) plain random bytes
 	for i := 0; i < *nrand; i++ {
 		b := make([]byte, s.rng.Intn(64))
